@@ -2,7 +2,7 @@
 
 package identify
 
-// C13 part "lifetime": every valid history (up to a depth) over two connections to R of
+// C13 part "lifetime": every valid history (up to a depth: quick 6, thorough 8) over two connections to R of
 //   open(i, remote behaviour)   connection enters the table, Connected is delivered (the service identifies it)
 //   resp(i) / push(i)           an identify response / push whose bytes were received on connection i is consumed
 //   close(i)                    connection leaves the table (Connectedness changes), its streams are reset
@@ -129,19 +129,29 @@ func (s c13LState) next(e c13Ev) c13LState {
 	return s
 }
 
-func c13Histories(cf c13LCfg) [][]c13Ev {
-	var out [][]c13Ev
-	var rec func(s c13LState, h []c13Ev)
-	rec = func(s c13LState, h []c13Ev) {
-		out = append(out, append([]c13Ev{}, h...))
+// c13Histories enumerates every valid history of length <= depth (prefix-closed, deterministic order), each
+// packed as one byte per event.
+func c13Histories(cf c13LCfg) []string {
+	var out []string
+	var rec func(s c13LState, h []byte)
+	rec = func(s c13LState, h []byte) {
+		out = append(out, string(h))
 		if len(h) == cf.depth {
 			return
 		}
 		for _, e := range s.enabled(cf) {
-			rec(s.next(e), append(h, e))
+			rec(s.next(e), append(h, byte(e.Kind<<4|e.Slot<<3|e.Beh)))
 		}
 	}
 	rec(c13LState{}, nil)
+	return out
+}
+
+func c13Unpack(h string) []c13Ev {
+	out := make([]c13Ev, len(h))
+	for i := 0; i < len(h); i++ {
+		out[i] = c13Ev{Kind: int(h[i] >> 4), Slot: int(h[i]>>3) & 1, Beh: int(h[i] & 7)}
+	}
 	return out
 }
 
@@ -159,7 +169,7 @@ func TestVerifC13Life(t *testing.T) {
 	defer r.Flush()
 	cf := c13LCfg{depth: 6, maxMsgs: 2, behs: []int{c13BehAnswer, c13BehStall, c13BehRefuse}}
 	if vrep.Thorough() {
-		cf = c13LCfg{depth: 7, maxMsgs: 2, behs: []int{c13BehAnswer, c13BehStall, c13BehRefuse, c13BehClosedFirst, c13BehDiscFirst}, tick: true}
+		cf = c13LCfg{depth: 8, maxMsgs: 2, behs: []int{c13BehAnswer, c13BehStall, c13BehRefuse, c13BehClosedFirst, c13BehDiscFirst}, tick: true}
 	}
 	hs := c13Histories(cf)
 	const rt = 0 // ed25519 remote (keys are the message product's business; this keeps a history cheap)
@@ -180,8 +190,9 @@ func TestVerifC13Life(t *testing.T) {
 	var dist c13Distinct
 	var exec int64
 	var cmu sync.Mutex
+	var smp c13Sampler
 	c13Each(t, r, n, func(i int) error {
-		h := hs[i/2]
+		h := c13Unpack(hs[i/2])
 		limited := i%2 == 1
 		var infra error
 		err := c13Bubble(t, func() {
@@ -394,10 +405,10 @@ func TestVerifC13Life(t *testing.T) {
 			dist.add(fmt.Sprint(hist, limited))
 			cmu.Lock()
 			exec++
-			if exec%4000 == 1 || (len(h) == cf.depth && exec%1500 == 2) {
-				r.Sample(map[string]any{"history": hist, "c1_limited": limited, "outcome": outcome})
-			}
 			cmu.Unlock()
+			if len(h) == cf.depth && last != nil && last.how != "automatic identify" && conns[1] != nil && i%11 == 5 && smp.take() {
+				r.Sample(map[string]any{"case_index": i, "history": hist, "c1_limited": limited, "outcome": outcome})
+			}
 		})
 		if err != nil {
 			return err
